@@ -31,7 +31,8 @@ Op(name, n, piece) == [op |-> name, n |-> n, piece |-> piece]
 Outcomes(st, o) ==
   CASE o.op = "write" ->   \* appending writes only (the property's restriction)
          IF st.pos = Len(st.data)
-         THEN {Out([data |-> st.data \o o.piece, pos |-> Len(st.data) + Len(o.piece)], Ok(<<>>))}
+         (* write returns the number of units written (characters for the text flavour), as the io classes do *)
+         THEN {Out([data |-> st.data \o o.piece, pos |-> Len(st.data) + Len(o.piece)], Ok(<<Len(o.piece)>>))}
          ELSE {}
     [] o.op = "read" ->      \* n = -1: everything left
          LET k == IF o.n = -1 THEN Len(Rest(st)) ELSE Min2(o.n, Len(Rest(st))) IN
